@@ -169,6 +169,19 @@ class Cluster:
             return
         self.last[k] = t
         self.req_src[k] = req_at_src
+        # history: what an earlier pull handed out must not change when a later pull is answered (results that share a work buffer)
+        kept = getattr(self, "kept", None)
+        if kept is None:
+            kept = self.kept = {}
+        for (k0, t0), (obj, snap_v, snap_m) in list(kept.items()):
+            m0 = obj.magnitude
+            if not (np.array_equal(np.ma.getdata(m0)[~snap_m], snap_v[~snap_m]) and np.array_equal(np.ma.getmaskarray(m0), snap_m)):
+                self.viol.append(("value", dict(kind="earlier_result_changed_by_later_pull", chain=tok_class(self.cfg["consumers"][k0])), f"the data handed to consumer {k0} for {float(t0)} changed when consumer {k} pulled {float(t)}"))
+                del kept[(k0, t0)]
+        for key in [x for x in kept if x[0] == k]:
+            del kept[key]
+        mg = got.magnitude
+        kept[(k, t)] = (got, np.array(np.ma.getdata(mg), copy=True), np.array(np.ma.getmaskarray(mg), copy=True))
         if exp is R.ANY:  # the statement leaves this answer open (e.g. repeated pull time on an integrating adapter)
             self.after_pull()
             return
